@@ -28,7 +28,7 @@ Theorem C01_spec_correct :
          (T : nat -> Z -> terms) (keys : list fkey),
   (forall k, In k keys -> exists r, spec (parent k) = Some r /\ kids k = r_kids terms r) ->
   (forall c m, m < 0 -> T c m = dflt) ->
-  (forall r p o n, n < 0 -> r_op terms r p o n = dflt) ->
+  (forall c r, spec c = Some r -> forall p o n, n < 0 -> r_op terms r p o n = dflt) ->
   (forall c r, spec c = Some r -> local terms r) ->
   (forall c r, spec c = Some r -> genuine terms T c r) ->
   forall c, pumps keys c ->
@@ -66,7 +66,8 @@ Theorem C01_choice_independent :
   (forall k, In k keys1 -> exists r, spec1 (parent k) = Some r /\ kids k = r_kids terms r) ->
   (forall k, In k keys2 -> exists r, spec2 (parent k) = Some r /\ kids k = r_kids terms r) ->
   (forall c m, m < 0 -> T c m = dflt) ->
-  (forall r p o n, n < 0 -> r_op terms r p o n = dflt) ->
+  (forall c r, spec1 c = Some r -> forall p o n, n < 0 -> r_op terms r p o n = dflt) ->
+  (forall c r, spec2 c = Some r -> forall p o n, n < 0 -> r_op terms r p o n = dflt) ->
   (forall c r, spec1 c = Some r -> local terms r) -> (forall c r, spec2 c = Some r -> local terms r) ->
   (forall c r, spec1 c = Some r -> genuine terms T c r) ->
   (forall c r, spec2 c = Some r -> genuine terms T c r) ->
@@ -74,9 +75,9 @@ Theorem C01_choice_independent :
   exists f0, forall f, (f0 <= f)%nat ->
     eval terms dflt spec1 f c n = eval terms dflt spec2 f c n.
 Proof.
-  intros terms dflt spec1 spec2 T keys1 keys2 Hk1 Hk2 Tn On Hl1 Hl2 Hg1 Hg2 c P1 P2 n Hn.
-  destruct (C01_spec_correct terms dflt spec1 T keys1 Hk1 Tn On Hl1 Hg1 c P1 n Hn) as [f1 H1].
-  destruct (C01_spec_correct terms dflt spec2 T keys2 Hk2 Tn On Hl2 Hg2 c P2 n Hn) as [f2 H2].
+  intros terms dflt spec1 spec2 T keys1 keys2 Hk1 Hk2 Tn On1 On2 Hl1 Hl2 Hg1 Hg2 c P1 P2 n Hn.
+  destruct (C01_spec_correct terms dflt spec1 T keys1 Hk1 Tn On1 Hl1 Hg1 c P1 n Hn) as [f1 H1].
+  destruct (C01_spec_correct terms dflt spec2 T keys2 Hk2 Tn On2 Hl2 Hg2 c P2 n Hn) as [f2 H2].
   exists (Nat.max f1 f2). intros f Hf. rewrite H1, H2; auto;
     [apply (Nat.le_trans _ (Nat.max f1 f2)); auto; apply Nat.le_max_r
     |apply (Nat.le_trans _ (Nat.max f1 f2)); auto; apply Nat.le_max_l].
@@ -109,7 +110,7 @@ Theorem C01_forest_pipeline_correct :
   (forall k, In k res ->
      exists r, spec (parent (bk_key k)) = Some r /\ kids (bk_key k) = r_kids terms r) ->
   (forall c m, m < 0 -> T c m = dflt) ->
-  (forall r p o n, n < 0 -> r_op terms r p o n = dflt) ->
+  (forall c r, spec c = Some r -> forall p o n, n < 0 -> r_op terms r p o n = dflt) ->
   (forall c r, spec c = Some r -> local terms r) ->
   (forall c r, spec c = Some r -> genuine terms T c r) ->
   forall n, 0 <= n ->
@@ -159,7 +160,7 @@ Example C01_forest_pipeline_nonvacuous :
     (forall k, In k res -> exists r, ex_spec (parent (bk_key k)) = Some r /\
                                      kids (bk_key k) = r_kids Z r) /\
     (forall c m, m < 0 -> ex_T c m = 0) /\
-    (forall r p o n, ex_spec 0 = Some r -> n < 0 -> r_op Z r p o n = 0) /\
+    (forall c r, ex_spec c = Some r -> forall p o n, n < 0 -> r_op Z r p o n = 0) /\
     (forall c r, ex_spec c = Some r -> local Z r) /\
     (forall c r, ex_spec c = Some r -> genuine Z ex_T c r).
 Proof.
@@ -170,7 +171,7 @@ Proof.
   split; [discriminate|].
   split; [intros k [<-|[]]; exists ex_rule; split; reflexivity|].
   split; [intros [|c] m Hm; simpl; auto; apply Z.ltb_lt in Hm; rewrite Hm; reflexivity|].
-  split; [intros r p o n E Hn; injection E as <-; simpl; apply Z.ltb_lt in Hn; rewrite Hn; reflexivity|].
+  split; [intros [|c] r E p o n Hn; [|discriminate]; injection E as <-; simpl; apply Z.ltb_lt in Hn; rewrite Hn; reflexivity|].
   split.
   - intros [|c] r E; [|discriminate]. injection E as <-.
     intros p p' o o' n Hp Ho. simpl.
@@ -184,5 +185,44 @@ Proof.
     apply Z.ltb_ge. apply Z.eqb_neq in E2. apply Z.lt_le_pred. apply Z.le_neq; auto.
 Qed.
 
+(* TOTAL form: termination of the table method (C03_terminates) and totality of the extractor
+   (C11_total) remove the two "the run returned" hypotheses, and C11's positional-determinacy
+   theorem gives one rule per class.  For EVERY list of inserted forest keys: if the (total) run of
+   the table method reports the start class as pumping, the extractor returns a rule set with
+   pairwise distinct parents, and any specification giving each extracted key a genuine, local rule
+   with that key evaluates to the true counts of the start class. *)
+From CSS Require Import Forest.TerminationDefs.
+Theorem C01_forest_pipeline_total :
+  forall (terms : Type) (dflt : terms) (T : nat -> Z -> terms)
+         (pick : list nat -> nat) (fuelx root : nat) (ks : list bkey),
+  (forall k, In k ks -> (bk_bucket k < 4)%nat) ->
+  pumping_answer (run_total pick (add_ops ks)) root = true ->
+  (forall c m, m < 0 -> T c m = dflt) ->
+  exists res, extract fuelx root ks = Ok res /\
+    (forall i j, (i < length res)%nat -> (j < length res)%nat ->
+       parent (bk_key (nth i res (mkb dummy 0))) = parent (bk_key (nth j res (mkb dummy 0))) -> i = j) /\
+    forall spec : nat -> option (srule terms),
+      (forall k, In k res ->
+         exists r, spec (parent (bk_key k)) = Some r /\ kids (bk_key k) = r_kids terms r) ->
+      (forall c r, spec c = Some r -> forall p o n, n < 0 -> r_op terms r p o n = dflt) ->
+      (forall c r, spec c = Some r -> local terms r) ->
+      (forall c r, spec c = Some r -> genuine terms T c r) ->
+      forall n, 0 <= n ->
+      exists f0, forall f, (f0 <= f)%nat -> eval terms dflt spec f root n = T root n.
+Proof.
+  intros terms dflt T pick fuelx root ks.
+  exact (forest_pipeline_total terms dflt T pick fuelx root ks).
+Qed.
+
+Example C01_forest_pipeline_total_nonvacuous :
+  (forall k, In k ex_ks -> (bk_bucket k < 4)%nat) /\
+  pumping_answer (run_total pick0 (add_ops ex_ks)) 0 = true /\
+  extract 0 0 ex_ks = Ok ex_ks.
+Proof.
+  split; [intros k [<-|[]]; simpl; auto with arith|].
+  split; vm_compute; reflexivity.
+Qed.
+
 Print Assumptions C01_forest_pipeline_correct.
 Print Assumptions C01_forest_pipeline_unique.
+Print Assumptions C01_forest_pipeline_total.
